@@ -291,6 +291,28 @@ static void shift_case(vf::Draw& d, vf::Case& c, const SolveTraits& t, RunFn fn,
     if (sk == 3 && cshift)
         sim = 0;  // a complex-shift wrapper given a real shift
     in.sigma = round_to(cld(sre, sim), si.prec);
+    // Right-hand side of the second call: either random, or constructed so that the solution has a MODERATE norm although the shifted
+    // matrix may be ill-conditioned: b = M conj(M) y / ||M|| (real for real A), whose solution is conj(M) y / ||M||. A backward-stable
+    // solve is accurate to cond * eps relative to ||solution|| for EVERY b; a method that is only accurate relative to
+    // ||M^-1|| ||b|| (multiplying by a computed inverse, for instance) is exposed by exactly such right-hand sides.
+    if (d.flag("rhs_with_moderate_solution") && normA > 0)
+    {
+        CMatL M = in.A - in.sigma * CMatL::Identity(n, n);
+        CVecL y = gen_vector(d, "y_seed", n, false, si.prec);
+        CVecL b = M * (M.conjugate() * y);
+        const ld nm = vf::fro_scaled(M);
+        if (nm > 0 && vf::all_finite(b))
+        {
+            for (Index i = 0; i < n; i++)
+                b[i] = cld(b[i].real() / nm, 0);
+            round_vec(b, si.prec);
+            if (vf::all_finite(b) && b.norm() > 0)
+            {
+                in.x2 = b;
+                c.cls("rhs_with_moderate_solution");
+            }
+        }
+    }
     in.reshift = d.flag("shift_set_twice");
     in.sigma0 = round_to(cld((ld) 0.37 * sc, cshift ? (ld) 0.61 * sc : 0), si.prec);
     int gk = 0;
@@ -371,6 +393,32 @@ static void shift_case(vf::Draw& d, vf::Case& c, const SolveTraits& t, RunFn fn,
         for (Index i = 0; i < n; i++)
             want[i] = cld(full[i].real(), 0);
         check_close(o.v[k], want, (ld) n * si.eps * cond * full.norm(), "solve", name + (k ? " perform_op (second call)" : " perform_op"), stat);
+        // Backward error ("to backward-stable accuracy"). The wrapper returns y = Re z only, with (M + E) z = b and ||E|| <= c n eps ||M||
+        // for a backward-stable solve, i.e. r = M z - b satisfies ||r|| <= c n eps ||M|| ||z||. M and conj(M) commute (A is real), so
+        //     M conj(M) y = (A - Re(sigma) I) b + Re(conj(M) r)          [for a real shift simply M y = b + r]
+        // and the defect of that identity is bounded by c n eps ||M||^2 ||z|| (resp. c n eps ||M|| ||z||). The forward-error test above
+        // cannot tell a backward-stable solve from, e.g., a multiplication by a computed inverse (both err by cond * eps along the
+        // near-singular direction); this one can, for right-hand sides whose solution has a moderate norm.
+        if (o.v[k].size() == n && vf::all_finite(o.v[k]))
+        {
+            const ld nM = vf::fro_scaled(M);
+            ld defect, unit;
+            if (in.sigma.imag() == 0)
+            {
+                defect = (M * o.v[k] - b).norm();
+                unit = (ld) n * si.eps * nM * full.norm();
+            }
+            else
+            {
+                CMatL Ar = in.A - cld(in.sigma.real(), 0) * CMatL::Identity(n, n);
+                defect = (M * (M.conjugate() * o.v[k]) - Ar * b).norm();
+                unit = (ld) n * si.eps * nM * nM * full.norm();
+            }
+            VF_CHECK(defect <= CTOL * unit, "backward_error", name << (k ? " perform_op (second call)" : " perform_op") << ": backward error " << vf::num(defect) << " > 64 * " << vf::num(unit)
+                                                                       << " = 64 n eps ||M||" << (in.sigma.imag() == 0 ? "" : "^2") << " ||z|| (cond " << vf::num(cond) << ", ||z|| = " << vf::num(full.norm()) << ")");
+            if (unit > 0)
+                pending_stats().push_back(std::make_pair(std::string(cshift ? "complex" : (symm ? "sym" : "real")) + " shift solve: backward error/(n eps ||M||^p ||z||)" + (kf3_domain ? " [KF-C11-3 input class]" : ""), (double) (defect / unit)));
+        }
     }
     metamorphic(d, c, t, fn, name, in, o, gk, G.scale, nan_run);
 }
